@@ -9,6 +9,7 @@ import (
 	"github.com/dolthub/go-mysql-server/vh/internal/kf"
 	"github.com/dolthub/go-mysql-server/vh/internal/srvfx"
 	"github.com/dolthub/go-mysql-server/vh/internal/stats"
+	"github.com/dolthub/vitess/go/vt/sqlparser"
 )
 
 // TestC12Known re-confirms the witness of the finding of this property. While the finding is
@@ -70,5 +71,38 @@ func TestC12Known(t *testing.T) {
 	st.NonTrivial(map[string]string{"finding": idColonV, "observed": bad}, idColonV)
 	if !kf.Suppress(st, idColonV) {
 		t.Errorf("finding %s reproduces and is not listed as known: statement SELECT id FROM t WHERE s = ':v1' AND i = ? prepared over the binary protocol: %s", idColonV, bad)
+	}
+}
+
+// TestC12KnownDecimalIndex re-confirms the witness of C12-decimal-index-bound-param (in
+// process, API bindings).
+func TestC12KnownDecimalIndex(t *testing.T) {
+	st := stats.New("C12", "known-decimal-index")
+	defer st.Flush()
+	st.Eval()
+	f := fx.New(fx.Opts{})
+	defer f.Close()
+	s := f.NewSession("", "", "")
+	s.MustExec(t.Fatalf,
+		"CREATE TABLE t (id INT PRIMARY KEY, b BIGINT, d DECIMAL(12,2), KEY kx1 (d, b))",
+		"INSERT INTO t VALUES (0,NULL,-0.25),(1,-3,-0.25),(2,-3,-1.50),(3,NULL,NULL),(4,NULL,-1.50),(6,0,-0.25)")
+	q := "SELECT t.id FROM t WHERE (t.d <> ?) ORDER BY t.id"
+	if _, err := f.Engine.PrepareQuery(s.Ctx(context.Background()), q); err != nil {
+		t.Fatalf("prepare: %v", err)
+	}
+	bound := outcomeOf(s.ExecB(q, map[string]sqlparser.Expr{"v1": val{c: cDec, s: "-0.25"}.api()}))
+	lit := outcomeOf(s.Exec("SELECT t.id FROM t WHERE (t.d <> -0.25) ORDER BY t.id"))
+	if sameOutcome(bound, lit, true) {
+		if kf.Listed(idDecIndex) {
+			t.Logf("finding %s is listed as known but its witness no longer reproduces (stale entry)", idDecIndex)
+			st.Class("witness-no-longer-reproduces:" + idDecIndex)
+		} else {
+			st.Class("witness-holds:" + idDecIndex)
+		}
+		return
+	}
+	st.NonTrivial(map[string]string{"finding": idDecIndex, "prepared": bound.String(), "inlined": lit.String()}, idDecIndex)
+	if !kf.Suppress(st, idDecIndex) {
+		t.Errorf("finding %s reproduces and is not listed as known: t.d <> ? bound to -0.25 returns %s, the inlined text %s", idDecIndex, bound, lit)
 	}
 }
